@@ -53,7 +53,9 @@ var ReplFuncs = []func([]byte) []byte{
 	func(m []byte) []byte { return append([]byte("["), append(append([]byte(nil), m...), ']')...) },
 }
 
-func fn(a *Args) func([]byte) []byte { return ReplFuncs[((a.Fn%len(ReplFuncs))+len(ReplFuncs))%len(ReplFuncs)] }
+func fn(a *Args) func([]byte) []byte {
+	return ReplFuncs[((a.Fn%len(ReplFuncs))+len(ReplFuncs))%len(ReplFuncs)]
+}
 func sfn(a *Args) func(string) string {
 	f := fn(a)
 	return func(s string) string { return string(f([]byte(s))) }
@@ -118,8 +120,14 @@ var APIs = []API{
 		Std: func(re *regexp.Regexp, a *Args) any { return re.MatchReader(&oneRuneReader{a.H}) },
 		Co:  func(re *coregex.Regex, a *Args) any { return re.MatchReader(&oneRuneReader{a.H}) }},
 	{Name: "pkg.Match", Group: "match",
-		Std: func(re *regexp.Regexp, a *Args) any { ok, err := regexp.Match(re.String(), a.H); return []any{ok, err != nil} },
-		Co:  func(re *coregex.Regex, a *Args) any { ok, err := coregex.Match(re.String(), a.H); return []any{ok, err != nil} }},
+		Std: func(re *regexp.Regexp, a *Args) any {
+			ok, err := regexp.Match(re.String(), a.H)
+			return []any{ok, err != nil}
+		},
+		Co: func(re *coregex.Regex, a *Args) any {
+			ok, err := coregex.Match(re.String(), a.H)
+			return []any{ok, err != nil}
+		}},
 	{Name: "pkg.MatchString", Group: "match",
 		Std: func(re *regexp.Regexp, a *Args) any {
 			ok, err := regexp.MatchString(re.String(), string(a.H))
@@ -241,7 +249,9 @@ var APIs = []API{
 			return out
 		}},
 	{Name: "AllString", Group: "iter",
-		Std: func(re *regexp.Regexp, a *Args) any { return ListStrings(takeK(a.K, re.FindAllString(string(a.H), -1))) },
+		Std: func(re *regexp.Regexp, a *Args) any {
+			return ListStrings(takeK(a.K, re.FindAllString(string(a.H), -1)))
+		},
 		Co: func(re *coregex.Regex, a *Args) any {
 			out := []string{}
 			for m := range re.AllString(string(a.H)) {
@@ -257,7 +267,9 @@ var APIs = []API{
 		Co:  func(re *coregex.Regex, a *Args) any { return normPairs(re.AppendAllIndex(dstFor(a), a.H, a.N)) }},
 	{Name: "AppendAllStringIndex", Group: "append", UsesN: true,
 		Std: stdAppend,
-		Co:  func(re *coregex.Regex, a *Args) any { return normPairs(re.AppendAllStringIndex(dstFor(a), string(a.H), a.N)) }},
+		Co: func(re *coregex.Regex, a *Args) any {
+			return normPairs(re.AppendAllStringIndex(dstFor(a), string(a.H), a.N))
+		}},
 
 	// ---- C08
 	{Name: "ReplaceAll", Group: "replace",
